@@ -1265,7 +1265,7 @@ Proof.
         assert (Hin1 : In (set_add sub0 e) (subs_step subs e)).
         { apply in_or_app. right. apply in_map_iff. exists sub0. auto. }
         destruct (I3 (set_add sub0 e) T' Hin1 HT') as (sub & Hsub & Hc).
-        exists sub. split; auto. intros c. rewrite Hc, M. cbn. tauto.
+        exists sub. split; auto. intros c. rewrite Hc, M. cbn [map In]. intuition (subst; auto).
 Qed.
 
 Lemma canon_fine_set sub : sub_ok sub -> fine (VSet sub) /\ canon (VSet sub) = mk_set (map canon sub).
@@ -1301,4 +1301,131 @@ Proof.
            apply in_map_iff in Hin as (y & <- & Hy). apply in_map. apply filter_In. split; auto.
            apply mem_In. exact Hx.
   - unfold spec_subset. rewrite on_set_err by auto. destruct a; try reflexivity. exfalso. eapply Ha. reflexivity.
+Qed.
+
+(* ------------------------------------------------------------------ functions: DOMAIN, application *)
+Lemma fine_fun kvs : fine (VFun kvs) ->
+  (forall k v, In (k, v) kvs -> fine k /\ fine v) /\ NoDup (map canon (map fst kvs)) /\
+  norm (VFun kvs) = VFun (sort_dedup kv_cmp (map ckv kvs)).
+Proof.
+  intros ((Ra & Nd) & B & P). pose proof P as P'. destruct P' as [Pa Ps]. cbn in B.
+  rewrite All_In in Ra, B, Pa. split; [|split; auto].
+  - intros k v Hin. specialize (Ra _ Hin). specialize (B _ Hin). specialize (Pa _ Hin). cbn in *.
+    repeat split; tauto.
+  - rewrite norm_plain by exact P. reflexivity.
+Qed.
+
+Lemma ckv_keys kvs : map fst (map ckv kvs) = map canon (map fst kvs).
+Proof. rewrite !map_map. apply map_ext. intros [k v]. reflexivity. Qed.
+
+Lemma NoDup_ckv kvs : NoDup (map canon (map fst kvs)) -> NoDup (map ckv kvs).
+Proof.
+  intros H. erewrite map_ext; [apply (C05.Proofs.NoDup_map_fst_pairs canon canon kvs H)|]. intros []; reflexivity.
+Qed.
+
+Lemma sorted_keys_NoDup kvs : NoDup (map canon (map fst kvs)) ->
+  NoDup (map fst (sort_dedup kv_cmp (map ckv kvs))).
+Proof.
+  intros H. apply (Permutation_NoDup (l := map fst (map ckv kvs))).
+  - apply Permutation_map. symmetry. apply kvsort_perm. apply NoDup_ckv, H.
+  - rewrite ckv_keys. exact H.
+Qed.
+
+Lemma lookup_In kvs c v : NoDup (map fst kvs) -> (lookup kvs c = Some v <-> In (c, v) kvs).
+Proof.
+  induction kvs as [|[k' v'] kvs IH]; cbn; intros Nd; [split; [discriminate|tauto]|].
+  inversion Nd as [|? ? Hn Nd']; subst. destruct (veqb k' c) eqn:E.
+  - apply veqb_eq in E. subst k'. split.
+    + intros [= ->]. auto.
+    + intros [[= ->]|Hin]; auto. exfalso. apply Hn. apply in_map_iff. exists (c, v). auto.
+  - rewrite IH by auto. split; auto. intros [[= -> ->]|Hin]; auto. rewrite veqb_refl in E. discriminate.
+Qed.
+
+Lemma lookup_None kvs c : lookup kvs c = None <-> ~ In c (map fst kvs).
+Proof.
+  induction kvs as [|[k' v'] kvs IH]; cbn; [tauto|].
+  destruct (veqb k' c) eqn:E.
+  - apply veqb_eq in E. split; [discriminate|tauto].
+  - rewrite IH. split; [|tauto]. intros H [->|H']; auto. rewrite veqb_refl in E. discriminate.
+Qed.
+
+Lemma fun_get_Some kvs x v : fun_get kvs x = Some v -> exists k, In (k, v) kvs /\ Equal k x = true.
+Proof.
+  induction kvs as [|[k' v'] kvs IH]; cbn; [discriminate|].
+  destruct (Equal k' x) eqn:E.
+  - intros [= ->]. exists k'. auto.
+  - intros H. destruct (IH H) as (k & Hin & Ek). exists k. auto.
+Qed.
+
+Lemma fun_get_None kvs x : fun_get kvs x = None -> forall k, In k (map fst kvs) -> Equal k x = false.
+Proof.
+  induction kvs as [|[k' v'] kvs IH]; cbn; [intros _ k []|].
+  destruct (Equal k' x) eqn:E; [discriminate|]. intros H k [<-|Hk]; auto.
+Qed.
+
+Theorem domain_lemma f : fine f -> allowed (is_tuprep f) (spec_domain (norm f)) (ModuleDomainSymbol f).
+Proof.
+  intros Ff. destruct f as [| b | z | s | xs | xs | kvs]; try reflexivity.
+  - (* a tuple: TLA+ gives 1..n, the runtime refuses (documented restriction) *)
+    cbn. right. split; auto. eexists; reflexivity.
+  - destruct (fine_fun kvs Ff) as (Hk & Nd & ->). cbn [spec_domain graph ModuleDomainSymbol AsFunction bind].
+    apply build_set_result.
+    + intros k Hin. apply in_map_iff in Hin as ([k' v'] & <- & Hin). apply (Hk k' v' Hin).
+    + intros c. rewrite <- ckv_keys. rewrite !in_map_iff. split.
+      * intros ([k v] & <- & Hin). exists (k, v). split; auto. rewrite kvsort_In. exact Hin.
+      * intros ([k v] & <- & Hin). exists (k, v). split; auto. rewrite kvsort_In in Hin. exact Hin.
+Qed.
+
+Theorem apply_lemma f x : fine f -> fine x -> allowed False (spec_apply (norm f) (norm x)) (ApplyFunction f x).
+Proof.
+  intros Ff Fx. destruct f as [| b | z | s | xs | xs | kvs]; try reflexivity.
+  - (* tuple *)
+    destruct (is_num x) as [[i ->]|Hx].
+    + cbn. rewrite map_length.
+      destruct ((1 <=? i) && (i <=? Z.of_nat (List.length xs))) eqn:Eb; cbn [require bind]; [|reflexivity].
+      rewrite nth_error_map.
+      destruct (nth_error xs (Z.to_nat (i - 1))) as [v|] eqn:En; cbn.
+      * apply allowed_ok; [reflexivity|]. apply fine_good in Ff. apply (proj1 (good_tup _) Ff). eapply nth_error_In; eauto.
+      * exfalso. apply nth_error_None in En. lia.
+    + assert (spec_apply (norm (VTup xs)) (norm x) = SErr) as ->.
+      { cbn. destruct (norm x) eqn:E; try reflexivity. apply (proj1 (norm_num _ _)) in E. exfalso. eapply Hx. exact E. }
+      cbn. destruct x; try reflexivity. exfalso. eapply Hx. reflexivity.
+  - (* function *)
+    destruct (fine_fun kvs Ff) as (Hk & Nd & ->). rewrite (norm_plain x) by apply Fx.
+    cbn [spec_apply ApplyFunction].
+    destruct (fun_get kvs x) as [v|] eqn:Eg.
+    + apply fun_get_Some in Eg as (k & Hin & Ek).
+      destruct (Hk k v Hin) as [Fk Fv].
+      apply C05.Proofs.Equal_spec_lemma in Ek; [|apply Fk|apply Fx].
+      assert (lookup (sort_dedup kv_cmp (map ckv kvs)) (canon x) = Some (canon v)) as ->.
+      { apply lookup_In; [apply sorted_keys_NoDup; auto|]. rewrite kvsort_In. rewrite <- Ek.
+        apply in_map_iff. exists (k, v). auto. }
+      apply allowed_ok; [apply norm_plain, Fv|apply fine_good, Fv].
+    + assert (lookup (sort_dedup kv_cmp (map ckv kvs)) (canon x) = None) as ->; [|reflexivity].
+      apply lookup_None. intros Hin. apply in_map_iff in Hin as ([ck cv] & E & Hin). cbn in E. subst ck.
+      rewrite kvsort_In in Hin. apply in_map_iff in Hin as ([k v] & [= E1 E2] & Hin).
+      pose proof (fun_get_None kvs x Eg k) as Hf.
+      assert (Equal k x = true); [|rewrite Hf in H; [discriminate|apply in_map_iff; exists (k, v); auto]].
+      destruct (Hk k v Hin) as [Fk _]. apply C05.Proofs.Equal_spec_lemma; [apply Fk|apply Fx|auto].
+Qed.
+
+(* ------------------------------------------------------------------ ToString, SelectElement *)
+(* ToString(v) == (CHOOSE x \in [a : v, b : STRING] : TRUE).b : TLA+ leaves the string unspecified *)
+Theorem tostring_lemma a : exists s, ModuleToString a = Ok (VStr s).
+Proof. eexists. reflexivity. Qed.
+
+(* the runtime helper behind `with x \in S`: the idx-th member in iteration order *)
+Theorem selectelement_lemma a idx : fine a ->
+  match SelectElement a idx with
+  | Ok r => exists s, a = VSet s /\ In r s /\ (idx < List.length s)%nat /\ good r
+  | TypeErr => forall s, a = VSet s -> (List.length s <= idx)%nat
+  | _ => False
+  end.
+Proof.
+  intros Fa. destruct a as [| b | z | s | xs | xs | kvs]; cbn; try (intros; discriminate).
+  destruct (nth_error xs idx) as [r|] eqn:E.
+  - exists xs. split; auto. split; [eapply nth_error_In; eauto|]. split.
+    + apply nth_error_Some. congruence.
+    + apply fine_good. apply (proj1 (fine_set xs Fa)). eapply nth_error_In; eauto.
+  - intros s [= <-]. apply nth_error_None. exact E.
 Qed.
